@@ -28,6 +28,12 @@ PreRuns(node) == node.ty \in {"ok", "mut"}
 PreIn(node, in) == IF node.ty = "mut" THEN [t |-> "val", v |-> 7, rep |-> "str", items |-> <<>>] ELSE in
 PreD(node, d, dp) == IF node.ty = "mut" THEN (dp :> 7) @@ d ELSE d
 
+\* A pointer is absent when its input is absent -- and, at the root of a JSON front end, when the document is the empty
+\* object: zjson hands an empty document over as "no record" (pinned by the repository's TestTopLevelOptionalStruct)
+JsonFe(fe) == fe \in {"json", "zhttpjson", "zjson"}
+EmptyDoc(in) == in.t = "map" /\ \A i \in DOMAIN in.items : in.items[i].val.t = "missing"
+PtrAbsent(in, p, fe) == ParseAbsent(in) \/ (p = <<>> /\ JsonFe(fe) /\ EmptyDoc(in))
+
 \* ---- C10: which input key names a struct field ---------------------------
 \* Parse: source-specific tag, else zog tag, else the schema key; Validate: zog tag else key.
 SourceTag(kid, fe) ==
@@ -110,7 +116,7 @@ RefParse(node, in, p, fe) ==
                  (IF node.req THEN <<RIss(node, p, "required", "slice")>> ELSE <<>>)
             ELSE E[n] \o FailedTests(node, n, p)
     [] node.k = "ptr" ->
-         IF ParseAbsent(in) THEN
+         IF PtrAbsent(in, p, fe) THEN
               (IF node.req THEN <<RIss(node, p, "not_nil", DType(node))>> ELSE <<>>)
          \* the pointer itself asks the front-end document to decode: an undecodable one is reported here, nothing is allocated
          ELSE IF in.t = "badjson" THEN <<Iss(p, "invalid_json", DType(node))>>
@@ -204,7 +210,7 @@ RefDestParse(node, in, dp, d, fe) ==
                     ELSE RefDestParse(Elem(node), src[i].val, Append(dp, Idx(i - 1)), E[i - 1], fe)
               IN E[n]
     [] node.k = "ptr" ->
-         IF ParseAbsent(in) \/ in.t = "badjson" THEN d
+         IF PtrAbsent(in, dp, fe) \/ in.t = "badjson" THEN d
          ELSE LET d1 == IF d[dp] = 0 THEN (dp :> 1) @@ ZeroDest(Elem(node), Append(dp, "*")) @@ d ELSE d
               IN RefDestParse(Elem(node), in, Append(dp, "*"), d1, fe)
     [] node.k = "pre" -> IF StrInput(in, node) /\ PreRuns(node) THEN RefDestParse(Elem(node), PreIn(node, in), dp, d, fe) ELSE d
@@ -269,7 +275,7 @@ ValidP(node, in, d, dp, fe) ==
                  /\ \A i \in 1..Len(src) : ValidP(Elem(node), src[i].val, d, Append(dp, Idx(i - 1)), fe)
                  /\ AllPass(node, d[dp])
     [] node.k = "ptr" ->
-         IF ParseAbsent(in) THEN ~node.req
+         IF PtrAbsent(in, dp, fe) THEN ~node.req
          ELSE d[dp] = 1 /\ ValidP(Elem(node), in, d, Append(dp, "*"), fe)
     [] node.k = "pre" -> StrInput(in, node) /\ PreRuns(node) /\ ValidP(Elem(node), PreIn(node, in), d, dp, fe)
     [] OTHER -> TRUE
@@ -316,7 +322,7 @@ CatchPathsP(node, in, p, fe) ==
          LET src == IF ParseAbsent(in) THEN (IF node.def = None THEN <<>> ELSE DefaultList(node).items)
                     ELSE IF in.t = "list" THEN in.items ELSE <<Ent("", in)>>
          IN UNION {CatchPathsP(Elem(node), src[i].val, Append(p, Idx(i - 1)), fe) : i \in DOMAIN src}
-    [] node.k = "ptr" -> IF ParseAbsent(in) \/ in.t = "badjson" THEN {} ELSE CatchPathsP(Elem(node), in, p, fe)
+    [] node.k = "ptr" -> IF PtrAbsent(in, p, fe) \/ in.t = "badjson" THEN {} ELSE CatchPathsP(Elem(node), in, p, fe)
     [] node.k = "pre" -> IF StrInput(in, node) /\ PreRuns(node) THEN CatchPathsP(Elem(node), PreIn(node, in), p, fe) ELSE {}
     [] OTHER -> {}
 
@@ -364,7 +370,7 @@ NodePathsV(node, d, dp, p) ==
 RECURSIVE AbsentDPP(_, _, _, _)
 AbsentDPP(node, in, dp, fe) ==
   IF node.k = "pre" THEN AbsentDPP(Elem(node), in, dp, fe)
-  ELSE IF node.k # "struct" /\ ParseAbsent(in) THEN {dp}
+  ELSE IF node.k # "struct" /\ (ParseAbsent(in) \/ (node.k = "ptr" /\ PtrAbsent(in, dp, fe))) THEN {dp}
   ELSE CASE node.k = "struct" ->
               IF in.t \in {"map", "nil", "missing"}
               THEN UNION {AbsentDPP(node.kids[i].node, ChildIn(fe, node.kids[i].node, in, KeyOfIn(node.kids[i], fe, "parse", in)),
